@@ -136,7 +136,7 @@ func (li *lexInv) ub(v ssa.Value, at *ssa.BasicBlock, depth int) ubound {
 		case token.SUB:
 			// len(input) - pos
 			if c, ok := stripConv(x.X).(*ssa.Call); ok {
-				if b, ok := c.Call.Value.(*ssa.Builtin); ok && b.Name() == "len" && li.isLoadOf(c.Call.Args[0], li.fIn) && li.isLoadOf(stripConv(x.Y), li.fPos) {
+				if b, ok := c.Call.Value.(*ssa.Builtin); ok && nm(b) == "len" && li.isLoadOf(c.Call.Args[0], li.fIn) && li.isLoadOf(stripConv(x.Y), li.fPos) {
 					return ubound{a: 1, k: 0, ok: true}
 				}
 			}
@@ -235,7 +235,7 @@ func (li *lexInv) posStableBetween(a, b ssa.Instruction) bool {
 		if c, ok := in.(ssa.CallInstruction); ok {
 			for _, arg := range c.Common().Args {
 				if pt, ok := arg.Type().(*types.Pointer); ok {
-					if n, ok := pt.Elem().(*types.Named); ok && n.Obj().Name() == "lexer" {
+					if n, ok := pt.Elem().(*types.Named); ok && nm(n.Obj()) == "lexer" {
 						return true
 					}
 				}
@@ -400,7 +400,7 @@ func c07PosInvariant(w *World, r *Report) {
 		case li.fPos:
 			// pos = len(input): exactly the end of the text
 			if c, ok := stripConv(st.Val).(*ssa.Call); ok {
-				if b, ok := c.Call.Value.(*ssa.Builtin); ok && b.Name() == "len" && li.isLoadOf(c.Call.Args[0], li.fIn) {
+				if b, ok := c.Call.Value.(*ssa.Builtin); ok && nm(b) == "len" && li.isLoadOf(c.Call.Args[0], li.fIn) {
 					r.OK("R07.7", cname, st.Pos(), "pos = len(input) (the end of the text)")
 					continue
 				}
